@@ -1,11 +1,11 @@
-//! libFuzzer target `walker`: coverage-guided inputs, judged by the same oracles as the checks
+//! libFuzzer target `tostr`: coverage-guided inputs, judged by the same oracles as the checks
 //! (elfmon::fuzz::fuzz_one). A violation aborts the target; the driver re-classifies the
-//! saved input with `elfmon fuzzcase walker <file>`.
+//! saved input with `elfmon fuzzcase tostr <file>`.
 #![no_main]
 use libfuzzer_sys::fuzz_target;
 
 fuzz_target!(|data: &[u8]| {
-    let v = elfmon::fuzz::fuzz_one("walker", data);
+    let v = elfmon::fuzz::fuzz_one("tostr", data);
     if let Some((prop, sig, detail)) = v.into_iter().next() {
         panic!("elfmon-violation {prop} {sig}: {detail}");
     }
